@@ -43,16 +43,29 @@ func executeFlush(db *DB, flushAction memStoreFlushAction) error {
 
 	gen := atomic.AddUint64(&db.currentGeneration, uint64(1))
 	writePath := filepath.Join(db.basePath, fmt.Sprintf(SSTablePattern, gen))
-	err := os.MkdirAll(writePath, 0700)
+	// the table is written into a temporary folder and only renamed to its final name once it is complete,
+	// so a crash can never leave a partially written sstable behind (leftovers are removed when opening)
+	tmpWritePath := filepath.Join(db.basePath, fmt.Sprintf(SSTableFlushPattern, gen))
+	err := os.RemoveAll(tmpWritePath)
+	if err != nil {
+		return err
+	}
+
+	err = os.MkdirAll(tmpWritePath, 0700)
 	if err != nil {
 		return err
 	}
 
 	err = memStoreToFlush.FlushWithTombstones(
-		sstables.WriteBasePath(writePath),
+		sstables.WriteBasePath(tmpWritePath),
 		sstables.WithKeyComparator(db.cmp),
 		sstables.WriteBufferSizeBytes(int(db.writeBufferSizeBytes)),
 		sstables.BloomExpectedNumberOfElements(numElements))
+	if err != nil {
+		return err
+	}
+
+	err = os.Rename(tmpWritePath, writePath)
 	if err != nil {
 		return err
 	}
